@@ -358,6 +358,33 @@ func (r *Runner) Fabricate(g *rng.R, flavor string) *Submission {
 		}
 		s.Flavor = "builder:" + kind
 		b1, b2 := b.PoolOf()
+		// revisions of one contract by several pooled transactions are ordered by core's revision
+		// numbers, which the model does not track: the generator does not produce them
+		revised := map[types.FileContractID]bool{}
+		for _, t := range pv1 {
+			for _, rv := range t.FileContractRevisions {
+				revised[rv.ParentID] = true
+			}
+		}
+		for _, t := range pv2 {
+			for _, rv := range t.FileContractRevisions {
+				revised[rv.Parent.ID] = true
+			}
+		}
+		for _, t := range b1 {
+			for _, rv := range t.FileContractRevisions {
+				if revised[rv.ParentID] {
+					return nil
+				}
+			}
+		}
+		for _, t := range b2 {
+			for _, rv := range t.FileContractRevisions {
+				if revised[rv.Parent.ID] {
+					return nil
+				}
+			}
+		}
 		if len(b2) > 0 {
 			s.V2 = true
 			for _, t := range b2 {
